@@ -424,9 +424,12 @@ theorem trim_cell_away_is_untrimmed (tt : TrimTol K) (sq : K → K) (trims : Lis
   obtain ⟨e1, e2⟩ := trimCell_outside tt sq trims v1 v2 v3 v4 vidx tidx h1 h2 h3 h4 hc1 hc2
   exact ⟨e1, e2, by rw [e2]; rfl⟩
 
-/-- (iii, triangles) **Every emitted triangle has its centre outside every non-reversed trim** (by `wn_poly`); it is a
-    fan triangle `(p, q, r)` of the returned vertex list (`p` its first entry), references exactly the ids of these
-    returned vertices, and its id lies in `tidx … tidx + len(vertices) - 3`. -/
+/-- (iii, triangles) **Every emitted triangle has its centre outside every non-reversed trim** (by `wn_poly`); its
+    three vertices `(p, q, r)` are entries of the returned vertex list, `p` being the FIRST entry (the apex of the fan),
+    it references exactly the ids of these vertices, and its id lies in `tidx … tidx + len(vertices) - 3`.  (That `q`,
+    `r` are CONSECUTIVE entries `verts[k+1]`, `verts[k+2]` with `tid = tidx + k` – what makes it a fan triangle – is true
+    of the model, `cellCandidates = numberFrom tidx (fanTriangles verts)` – is the separate statement
+    `trim_cell_triangles_are_fan_triangles` below; this one states membership only; statement audit 5, T1.) -/
 theorem trim_cell_triangles (tt : TrimTol K) (sq : K → K) (trims : List (Trim K)) (v1 v2 v3 v4 : TVertex K)
     (vidx tidx tid : ℕ) (t : List ℕ) (h : (tid, t) ∈ (trimCell tt sq trims v1 v2 v3 v4 vidx tidx).tris) :
     ∃ p q r, p ∈ (trimCell tt sq trims v1 v2 v3 v4 vidx tidx).verts ∧ q ∈ (trimCell tt sq trims v1 v2 v3 v4 vidx tidx).verts ∧
@@ -436,6 +439,18 @@ theorem trim_cell_triangles (tt : TrimTol K) (sq : K → K) (trims : List (Trim 
       (classifyTri trims (triCenterUV p.2 q.2 r.2)).inside = false ∧
       ∀ tr ∈ trims, tr.reversed = false → wnPoly (triCenterUV p.2 q.2 r.2) tr.pts = false :=
   trimCell_triangles tt sq trims v1 v2 v3 v4 vidx tidx tid t h
+
+/-- (iii, triangles, fan form) **Every kept triangle IS a fan triangle of the returned vertex list**: the triangle with
+    id `tid` is `(verts[0], verts[k+1], verts[k+2])` with `k = tid − tidx` – the apex and two CONSECUTIVE entries, ids
+    taken from these vertices (the consecutiveness that `trim_cell_triangles` does not state; statement audit 5, T1). -/
+theorem trim_cell_triangles_are_fan_triangles (tt : TrimTol K) (sq : K → K) (trims : List (Trim K))
+    (v1 v2 v3 v4 : TVertex K) (vidx tidx tid : ℕ) (t : List ℕ)
+    (h : (tid, t) ∈ (trimCell tt sq trims v1 v2 v3 v4 vidx tidx).tris) :
+    ∃ k p q r, tid = tidx + k ∧
+      (trimCell tt sq trims v1 v2 v3 v4 vidx tidx).verts[0]? = some p ∧
+      (trimCell tt sq trims v1 v2 v3 v4 vidx tidx).verts[k + 1]? = some q ∧
+      (trimCell tt sq trims v1 v2 v3 v4 vidx tidx).verts[k + 2]? = some r ∧ t = [p.1, q.1, r.1] :=
+  trimCell_triangles_fan tt sq trims v1 v2 v3 v4 vidx tidx tid t h
 
 /-- (iii, vertices) Every returned vertex is either a corner that is not classified inside, with its own id and
     parameters, or a NEW vertex with id `vidx + k`, `k < nvi ≤ 4`, whose parameters are the snapped point `a + t·(b - a)`
@@ -603,7 +618,13 @@ theorem trim_within_one_cell (tt : TrimTol K) (sq : K → K) (trims : List (Trim
   trimCells_cell_whole tt sq trims hnr hcl uvs nu nv i j hi hj hno
 
 /-- (iv), contrapositive: a cell whose result is neither "nothing" nor "the two untrimmed triangles" has a trim edge
-    that crosses a segment between two of its sample points. -/
+    that crosses a segment between two of its sample points.  Strength (statement audit 5, T2): `cellSamples` contains
+    the reference point `p0` itself, so the quantification of `hno` in `trim_within_one_cell` includes the DEGENERATE
+    segment `p0 → p0`, which `Crosses a b p0 p0` for every trim edge whose LINE passes through `p0` – however far away
+    the edge is (and `p0 →` the offset point of corner 4 is a vertical segment at `x = u − tol²`).  Hence this conclusion
+    can be met by a far-away collinear edge and does not by itself locate the difference "in cells crossed by a trim
+    polyline"; the statement that carries "within one sampling cell" is the geometric one,
+    `trim_cell_no_trim_enters_is_whole` (no trim point in the tol²-enlarged box of the cell), which is not affected. -/
 theorem trim_differs_only_where_a_trim_crosses (tt : TrimTol K) (sq : K → K) (trims : List (Trim K))
     (hnr : ∀ tr ∈ trims, tr.reversed = false) (hcl : ∀ tr ∈ trims, tr.pts.head? = tr.pts.getLast?)
     (uvs : List (K × K)) (nu nv i j : ℕ) (hi : i < nu - 1) (hj : j < nv - 1) (r : TrimCellResult K)
@@ -645,6 +666,15 @@ example : let r := trimCell exTol exSq [exTrim] ⟨0, (0, 0), {}⟩ ⟨4, (1/3, 
     r.verts = [(0, (0, 0)), (4, (1/3, 0)), (16, (1/3, 3/16)), (17, (3/16, 1/3)), (1, (0, 1/3))] ∧
     r.tris = [(0, [0, 4, 16]), (2, [0, 17, 1])] ∧
     r.flags = [{}, {}, { inside := true, trim := true }, {}] := by decide +kernel
+
+/-- `trim_cell_triangles_are_fan_triangles` on that cell: the kept triangle with id 2 is `(verts[0], verts[3], verts[4])`,
+    `k = 2` (the fan triangle with id 1 was dropped: ids are positions in the fan, gaps included) -/
+example : ∃ k p q r, (2 : ℕ) = 0 + k ∧
+    (trimCell exTol exSq [exTrim] ⟨0, (0, 0), {}⟩ ⟨4, (1/3, 0), {}⟩ ⟨5, (1/3, 1/3), {}⟩ ⟨1, (0, 1/3), {}⟩ 16 0).verts[0]? = some p ∧
+    (trimCell exTol exSq [exTrim] ⟨0, (0, 0), {}⟩ ⟨4, (1/3, 0), {}⟩ ⟨5, (1/3, 1/3), {}⟩ ⟨1, (0, 1/3), {}⟩ 16 0).verts[k + 1]? = some q ∧
+    (trimCell exTol exSq [exTrim] ⟨0, (0, 0), {}⟩ ⟨4, (1/3, 0), {}⟩ ⟨5, (1/3, 1/3), {}⟩ ⟨1, (0, 1/3), {}⟩ 16 0).verts[k + 2]? = some r ∧
+    [0, 17, 1] = [p.1, q.1, r.1] :=
+  trim_cell_triangles_are_fan_triangles exTol exSq [exTrim] _ _ _ _ 16 0 2 [0, 17, 1] (by decide +kernel)
 
 /-- the hypotheses of `trim_grid_cell_untrimmed` / `trim_within_one_cell` hold for cell (2,2) (the trim stays away
     from it): no offset point of its corners and no centre in the trim, no trim edge crosses a sample segment -/
